@@ -34,6 +34,10 @@ func fatal(err error) {
 var runners = map[string]func(Config){
 	"C02": runC02,
 	"C04": runC04,
+	"C13": runC13,
+	"C17": runC17,
+	"C18": runC18,
+	"C19": runC19,
 }
 
 func main() {
@@ -47,6 +51,10 @@ func main() {
 	flag.StringVar(&cfg.Replay, "replay", "", "replay file")
 	flag.StringVar(&cfg.Work, "work", "", "scratch directory (created and removed by the caller)")
 	flag.Parse()
+	// the library prints warnings ("skipping … unsupported node type") to os.Stderr
+	if null, err := os.OpenFile(os.DevNull, os.O_WRONLY, 0); err == nil && os.Getenv("VERIF_STDERR") == "" {
+		os.Stderr = null
+	}
 	if s := os.Getenv("VERIF_SEED"); s != "" && cfg.Seed == 1 {
 		if v, err := strconv.ParseInt(s, 10, 64); err == nil {
 			cfg.Seed = v
